@@ -27,6 +27,32 @@ STATIC_OK = [
 ]
 
 
+def _by_fields(F, ty, depth=3):
+    """a struct static whose every non-Freeze field is itself of a reviewed race-free kind (lock, atomic, once cell)"""
+    if depth == 0:
+        return None
+    name = re.sub(r"<.*", "", ty)
+    cands = [a for a in F.adts.values() if a.qpath.endswith(name) or a.path == name]
+    if len(cands) != 1 or cands[0].kind != "Struct" or not cands[0].fields:
+        return None
+    kinds = set()
+    for fld in cands[0].fields:
+        fty = fld["ty"]
+        if fld["freeze"]:
+            continue  # no interior mutability in this field's type
+        r = None
+        for p, why in STATIC_OK:
+            if re.search(p, fty):
+                r = why
+                break
+        if r is None:
+            r = _by_fields(F, fty, depth - 1)
+        if r is None:
+            return None
+        kinds.add(r)
+    return "struct whose interior-mutable fields are all race-free (%s)" % ", ".join(sorted(kinds)) if kinds else None
+
+
 def r2_statics(ctx, F):
     st = [s for s in F.statics if s["crate"] in CRATES]
     ctx.floor("C20.R2", "statics", len(st), 1400, inventory=True)
@@ -49,6 +75,8 @@ def r2_statics(ctx, F):
                 break
         if reason is None and re.search(r"values::types::array::ValueEmptyArray$", s["ty"]):
             reason = "the shared empty array: its cells are covered by the unsafe-Sync inventory (C04.R4 / C20.R1)"
+        if reason is None:
+            reason = _by_fields(F, s["ty"])
         if reason is None:
             ctx.bad("C20.R2", "static:%s" % s["path"],
                     "static `%s: %s` contains interior mutability of a kind that is not race-free and is not reviewed"
